@@ -3860,6 +3860,70 @@ def stream_corpus(ctx):
 
 # ---------------------------------------------------------------------------------------------------------------------
 
+# ---------------------------------------------------------------------------------------------------------------------
+# script functions called through evaluate_expression with options that never went through execute_script (finding F45)
+# ---------------------------------------------------------------------------------------------------------------------
+
+SF_ORACLE = 'expression-calls-script-function'
+SF_DEFS = ("function inc(x):\n  return x + 1\nendfunction\n"
+           "function pick(a, b, rest...):\n  if a:\n    return b\n  endif\n  return arrayLength(rest)\nendfunction\n"
+           "function fact(n):\n  if n < 2:\n    return 1\n  endif\n  return n * fact(n - 1)\nendfunction\n"
+           "function noisy(t):\n  systemLog('noisy ' + t)\n  return t\nendfunction\n")
+SF_EXPRS = ['inc(2)', 'inc(inc(1)) * 2', 'pick(true, 7)', 'pick(false, 7, 1, 2, 3)', 'fact(5)', "noisy('a') + noisy('b')",
+            "if(inc(0), noisy('t'), noisy('f'))", 'inc(1) && fact(3)', "arrayLength(arrayNew(inc(1), fact(3)))", 'mathMax(inc(1), fact(3))']
+SF_OPTION_FORMS = ('globals-only', 'globals+debug', 'globals+limit', 'globals+count0', 'after-run')
+
+
+def sf_run(form, text):
+    """Evaluate `text` with the script functions of SF_DEFS in the globals, under options of the given form; returns (value, log)."""
+    impl = fw.impl()
+    glob, log = {}, []
+    run_opts = {'globals': glob, 'logFn': log.append}
+    impl['runtime'].execute_script(impl['parser'].parse_script(SF_DEFS), run_opts)
+    del log[:]
+    if form == 'after-run':
+        opts = run_opts                                        # the options object that executed the definitions
+    else:
+        opts = {'globals': glob, 'logFn': log.append}          # a FRESH options object: no statementCount yet
+        if form == 'globals+debug':
+            opts['debug'] = True
+        elif form == 'globals+limit':
+            opts['maxStatements'] = 10000
+        elif form == 'globals+count0':
+            opts['statementCount'] = 0
+    try:
+        value = impl['runtime'].evaluate_expression(impl['parser'].parse_expression(text), opts)
+    except Exception as exc:  # pylint: disable=broad-except
+        value = 'EXC ' + type(exc).__name__
+    return value, list(log)
+
+
+def sf_failure(form, text):
+    """The value and log of the expression must be what a script computing `return <text>` gives (the language's value of the call)."""
+    impl = fw.impl()
+    glob, log = {}, []
+    want = impl['runtime'].execute_script(impl['parser'].parse_script(SF_DEFS + 'return ' + text), {'globals': glob, 'logFn': log.append, 'maxStatements': 10000})
+    got, got_log = sf_run(form, text)
+    if got != want or type(got) is not type(want) or got_log != log:
+        return {'expected': [want, log], 'actual': [got, got_log]}
+    return None
+
+
+def stream_script_functions(ctx):
+    st = ctx.stream('expr-script-functions', 'calls of SCRIPT functions (bound in the globals by an earlier execute_script run) evaluated through '
+                    'evaluate_expression under %d forms of the options object - in particular a FRESH options object that never went through '
+                    'execute_script (no statementCount yet; finding F45): value and log must be those of a script computing `return <expr>`. '
+                    'Implementation-side oracle: the Lean machine starts every evaluation with a counter; non-trivial = all cases'
+                    % len(SF_OPTION_FORMS))
+    for form in SF_OPTION_FORMS:
+        for text in SF_EXPRS:
+            bad = sf_failure(form, text)
+            st.case([form, text], nontrivial=True, tags=[form])
+            if bad is not None:
+                ctx.witness(SF_ORACLE, {'form': form, 'expr': text}, bad['expected'], bad['actual'])
+    st.exhaustive = True
+
+
 def streams(ctx):
     only = os.environ.get('VERIF_C03_STREAMS')            # development aid: run the named streams only (comma separated)
     if only:
@@ -3879,6 +3943,7 @@ def streams(ctx):
     stream_number_edges(ctx)
     stream_repeated_effects(ctx)
     stream_alias_all_types(ctx)
+    stream_script_functions(ctx)
     stream_fresh_process(ctx)
 
 
@@ -3941,6 +4006,8 @@ def search(ctx):
 
 def replay(witness):
     oracle = witness.get('oracle')
+    if oracle == SF_ORACLE:
+        return sf_failure(witness['input']['form'], witness['input']['expr']) is not None
     if oracle == 'total-order-laws':
         return law_failure(witness['input']['law'], witness['input']['strings']) is not None
     if oracle == EDGE_LAW_ORACLE:
